@@ -8,7 +8,7 @@ EXPLANATION = ('Loop summaries of every run loop compared with their specificati
                'iterations with one step each, row k, buffer [n_collect, n_chains, dim] permuted [1,0,2]); NUTSChain::run (row 0 = position at entry, loop 1..n_collect+n_discard, '
                'guard m >= n_discard, row m - n_discard => row r after n_discard + r transitions); NUTS::run (in-place order-preserving map, stack on dim 0). '
                'Step receivers are reached through &mut places without an intervening clone (continuation).')
-FLOORS = {'obligations': 24}   # counted on the reference tree; fewer instantiated obligations is reported, never passed silently
+FLOORS = {'obligations': 28}   # counted on the reference tree; fewer instantiated obligations is reported, never passed silently
 TECHNIQUE = 'loop summaries (trip counts, guards, affine row indices, carried places) + value-flow normal forms'
 STEP = 'core::MarkovChain::step'
 
@@ -82,6 +82,45 @@ def run(ctx):
     hmc_run(ctx, nc, nd)
     nuts_chain_run(ctx, nc, nd)
     nuts_run(ctx, nc, nd)
+    constructors(ctx)
+
+
+def constructors(ctx):
+    """chain c is built from the c-th initial state (row c of every run() belongs to it)"""
+    for A, head, param, chain_adt, statef in (('MetropolisHastings::new', 'metropolis_hastings::MetropolisHastings', 'initial_states', 'adt:metropolis_hastings::MHMarkovChain', 'current_state'),
+                                               ('GibbsSampler::new', 'gibbs::GibbsSampler', 'initial_states', 'adt:gibbs::GibbsMarkovChain', 'current_state'),
+                                               ('NUTS::new', 'nuts::NUTS', 'initial_positions', 'adt:nuts::NUTSChain', 'position')):
+        b = ctx.anchor(A, name='new', self_head=head, container='inherent')
+        if b is None:
+            ctx.unknown('C09.ctor', A, 'anchor', why='anchor not found')
+            continue
+        ev = ctx.evaluate(b)
+        init = S(param)
+        loops = [ls for ls in ev.vf.loops if getattr(ls, 'result_term', None) is not None and T.is_app(ls.result_term, chain_adt) and not ls.ctx]
+        ok = False
+        found = show(fld(ev.ret_term, 'chains'))[:200]
+        if len(loops) == 1:
+            ls = loops[0]
+            st = fld(ls.result_term, statef)
+            elem = index_term(init, ls.var)
+            okstate = st is elem or (T.is_app(st, 'tensordata') and st[2][0] is elem)
+            chains = fld(ev.ret_term, 'chains')
+            okorder = contains(chains, mk_comp(ls.n, ls.var, ls.result_term))
+            ok = okstate and ls.n is T.app('len', init) and okorder and not ls.exits
+        ctx.check('C09.ctor', A, 'chain-order', ok, expected='chains[c] is built from %s[c], for every c, collected in order' % param, found=found, sp=b['sp'],
+                  why='row c of the output belongs to the c-th initial state')
+    A = 'HMC::new'
+    b = ctx.anchor(A, name='new', self_head='hmc::HMC', container='inherent')
+    if b is None:
+        ctx.unknown('C09.ctor', A, 'anchor', why='anchor not found')
+        return
+    ev = ctx.evaluate(b)
+    init = S('initial_positions')
+    k = S('k#c')
+    n = T.app('len', init)
+    exp = T.app('tensordata', T.app('flatten', mk_comp(n, k, index_term(init, k))), T.app('array', n, T.app('len', index_term(init, N(0)))))
+    ctx.eq('C09.ctor', A, 'chain-order', fld(ev.ret_term, 'positions'), exp, sp=b['sp'],
+           why='positions row c = initial_positions[c] (row-major [n_chains, dim] tensor from the chain-major flattening)')
 
 
 def runner_run(ctx, nc, nd):
